@@ -539,7 +539,7 @@ UNUSED_VARIANT_PARAM_OK = {
 def rule_r5(chk):
     chk.rule("C20-R5", "variant selection is honoured: every function with a variant-selecting parameter (variant, variants, vid, variant_id) "
              "reads it somewhere in its body (an ignored selector answers from variant 0 for every variant); three named exceptions "
-             "receive data that is already per-variant", floor=30)
+             "receive data that is already per-variant", floor=30, shape_independent=True)
     n_used = 0
     for m in chk.repo.modules.values():
         for q, f in m.functions():
@@ -620,12 +620,12 @@ def rule_r7(chk):
 
 
 def run(chk):
-    rule_r1(chk)
-    rule_r2(chk)
-    rule_r3(chk)
-    rule_r4(chk)
-    rule_r5(chk)
-    rule_r7(chk)
+    chk.guard(rule_r1, chk)
+    chk.guard(rule_r2, chk)
+    chk.guard(rule_r3, chk)
+    chk.guard(rule_r4, chk)
+    chk.guard(rule_r5, chk)
+    chk.guard(rule_r7, chk)
     from .. import gens
     gens.apply(chk, "C20-R6", {"simultaneous", "sequentials", "red_vars", "has_variants", "quantities", "equations", "attributes", "stackers"}, 15,
                "a generator consumed inside the loop over variants serves variant 0 only")
